@@ -10,7 +10,9 @@ import (
 	"io"
 	"sync"
 
+	"github.com/grailbio/base/backgroundcontext"
 	"github.com/grailbio/base/retry"
+	"github.com/grailbio/bigmachine"
 	"github.com/grailbio/bigslice/frame"
 	"github.com/grailbio/bigslice/internal/simhook"
 	"github.com/grailbio/bigslice/slicefunc"
@@ -179,3 +181,36 @@ func (v *VerifCombiningFrame) Combine(f frame.Frame) { v.c.Combine(f) }
 func (v *VerifCombiningFrame) Compact() frame.Frame  { return v.c.Compact() }
 func (v *VerifCombiningFrame) Len() int              { return v.c.Len() }
 func (v *VerifCombiningFrame) Cap() int              { return v.c.Cap() }
+
+// VerifManager is the exported view of a machine manager.
+type VerifManager struct{ m *machineManager }
+
+// VerifMachine is a machine granted by a VerifManager.
+type VerifMachine struct{ m *sliceMachine }
+
+// Addr returns the machine's address.
+func (v VerifMachine) Addr() string { return v.m.Addr }
+
+// Done returns procs on the machine, reporting err.
+func (v VerifMachine) Done(procs int, err error) { v.m.Done(procs, err) }
+
+// VerifNewManager starts a machine manager on system with the given
+// parallelism and max load, as bigmachineExecutor.manager does.
+func VerifNewManager(system bigmachine.System, maxp int, maxLoad float64) *VerifManager {
+	b := bigmachine.Start(system)
+	m := newMachineManager(b, nil, nil, maxp, maxLoad, &worker{})
+	go m.Do(backgroundcontext.Get())
+	return &VerifManager{m}
+}
+
+// Offer requests a machine; the returned channel yields the grant.
+func (v *VerifManager) Offer(priority, procs int) (<-chan VerifMachine, func()) {
+	c, cancel := v.m.Offer(priority, procs)
+	out := make(chan VerifMachine, 1)
+	go func() {
+		if m, ok := <-c; ok && m != nil {
+			out <- VerifMachine{m}
+		}
+	}()
+	return out, cancel
+}
